@@ -169,11 +169,21 @@ def check_case(case) -> Result:
         y4 = np.asarray(lib("forecast_cum", f.forecast_cum, t * lam, M, tau * lam), float)
         scale = float(np.max(np.abs(y))) + 1e-300
         res.check("C05/invariant-under-joint-rescaling", float(np.max(np.abs(y4 - y))), 1e-12 * scale, f"t and tau both times {lam!r}: forecast changes;")
-        # stored parameters are used when none are given
-        f.M_, f.tau_ = M, tau
-        y5 = np.asarray(lib("forecast_cum()", f.forecast_cum, t), float)
-        if not np.array_equal(y5, y):
-            res.bad("C05/forecast-is-M-times-rf-of-t-over-tau", "forecast_cum(t) with stored M_, tau_ differs from forecast_cum(t, M_, tau_)")
+        # every way of supplying M and tau obeys the law: fitted (stored) values stand in for omitted arguments only
+        Ms, taus = M * 2.0 ** case["m_factor_exp"] * 3.0, tau * 2.0 ** (case["k_dyadic"] % 5) * 1.5
+        f.M_, f.tau_ = Ms, taus
+        for label, kwargs, m_eff, tau_eff in (
+            ("forecast_cum(t)", {}, Ms, taus),
+            ("forecast_cum(t, M=M)", {"M": M}, M, taus),
+            ("forecast_cum(t, tau=tau)", {"tau": tau}, Ms, tau),
+            ("forecast_cum(t, M, tau) with other stored values", {"M": M, "tau": tau}, M, tau),
+        ):
+            got = np.asarray(lib(label, f.forecast_cum, t, **kwargs), float)
+            want_p = m_eff * np.asarray(rf(t / tau_eff), float)
+            if got.shape != want_p.shape or not np.array_equal(got, want_p):
+                k = int(np.argmax(np.abs(got - want_p))) if got.shape == want_p.shape else 0
+                res.bad("C05/forecast-is-M-times-rf-of-t-over-tau", f"{label} with stored M_={Ms!r}, tau_={taus!r}, M={M!r}, tau={tau!r}: element {k} is {got[k] if got.shape == want_p.shape else got.shape!r}, M*rf(t/tau) = {want_p[k]!r}")
+                break
         res.nontrivial = True
         return res
 
